@@ -99,6 +99,10 @@ func NewEnv(repo, verif, tier string, seed int64) (*Env, error) {
 }
 
 func (e *Env) Close() {
+	if os.Getenv("VERIF_KEEP") != "" {
+		fmt.Println("KEEP scratch:", e.Scratch)
+		return
+	}
 	os.RemoveAll(e.Scratch)
 }
 
